@@ -8,7 +8,7 @@ from pyvc.contracts import (Any, Bool, Bytes, Callback, Inst, Int, IntRange, Lis
                             implies, ite, lemma, model, at)
 from pyvc.ext_c08 import RecListOf, col
 from spec.ertm import (CONT, END, RR, RNR, START, UNSEG, le16, f_final, f_poll, f_req_seq, f_sar, f_sfunc, f_tx_seq, iframe,
-                       iframe_data, is_iframe, is_sframe, nseg, seg_payload, seg_sar, seg_sdu_length, sframe_ctrl)
+                       iframe_data, is_iframe, is_sframe, segmentation, sframe_ctrl)
 
 ENVIRONMENT = [
     'the channel below a mode processor (ClassicChannel.send_pdu / on_sdu) is a recording stub in the processor '
@@ -107,8 +107,9 @@ model(
         _remote_is_busy=Bool,
         _in_sdu=Bytes,
         _num_receiver_ready_polls_sent=Int,
-        _monitor_handle=Opt(TIMER),
-        _receiver_ready_poll_handle=Opt(TIMER),
+        # (OneOf rather than Opt: the alternative is chosen when the field is first read, not when the state is built)
+        _monitor_handle=OneOf(None, TIMER),
+        _receiver_ready_poll_handle=OneOf(None, TIMER),
     ),
 )
 ERTM = Inst(ERTM_M)
@@ -276,6 +277,9 @@ def po_inv(self, old, ghost, _i, pdu_to_send):
     ]
 
 
+contract(ERTM_M + '._process_output', key=ERTM_M + '._process_output@callee', **PROCESS_OUTPUT)
+USE_PO = [ERTM_M + '._process_output@callee']
+
 contract(
     ERTM_M + '._process_output',
     prop='C08',
@@ -283,4 +287,72 @@ contract(
     stubs=STUBS,
     inline=INLINE_CF + ['EnhancedRetransmissionProcessor._send_i_frame', 'EnhancedRetransmissionProcessor._start_receiver_ready_poll'],
     **PROCESS_OUTPUT,
+)
+
+
+# ---------------------------------------------------------------------------
+# send_sdu: segmentation
+# ---------------------------------------------------------------------------
+# ghost.seg_*: names for the segmentation of this SDU as the specification defines it (rigid; defined by `requires`)
+SEG_GHOST = dict(seg_off=ListOf(Int), seg_pay=ListOf(Bytes), seg_sar=ListOf(Int), seg_len=ListOf(Int), seg_tx=ListOf(Int))
+SEG_OF = {'payload': 'seg_pay', 'tx_seq': 'seg_tx', 'sar': 'seg_sar', 'sdu_length': 'seg_len'}
+
+
+def seg_pre(self, sdu, ghost):
+    return segmentation(len(sdu), sdu, self.peer_mps, ghost.seg_off, ghost.seg_pay, ghost.seg_sar, ghost.seg_len) + [
+        len(ghost.seg_tx) == len(ghost.seg_off),
+        numbered(ghost.seg_tx, self._next_tx_seq),
+    ]
+
+
+def queued(self, old, ghost, k, in_window):
+    """the first k segments of the SDU were appended, in order, behind everything queued before (in_window: part of
+    the queue may already be in the window of unacknowledged frames)"""
+    out = []
+    for f in FIELDS:
+        seg = getattr(ghost, SEG_OF[f])
+        if in_window:
+            out.append(col(self._tx_window, f) + col(self._pending_pdus, f) == col(old.self._tx_window, f) + col(old.self._pending_pdus, f) + seg)
+        else:
+            out.append(col(self._pending_pdus, f) == col(old.self._pending_pdus, f) + seg[:k])
+    return out
+
+
+def seg_hints(ghost, j):
+    """valid facts about the prefixes of the segment lists at position j (hints for the solvers)"""
+    k = len(ghost.seg_off)
+    return [implies(0 <= j and j < k, getattr(ghost, SEG_OF[f])[: j + 1] == getattr(ghost, SEG_OF[f])[:j] + [getattr(ghost, SEG_OF[f])[j]]) for f in FIELDS]
+
+
+def ss_inv(self, sdu, old, ghost, _it):
+    j = len(self._pending_pdus) - len(old.self._pending_pdus)
+    k = len(ghost.seg_off)
+    return [
+        0 <= j and j <= k,
+        implies(j < k, _it == ghost.seg_off[j]),
+        implies(j == k, _it >= len(sdu)),
+        k >= 2,
+        self._next_tx_seq == (old.self._next_tx_seq + j) % 64,
+        numbered(col(self._pending_pdus, 'tx_seq'), self._last_acked_tx_seq + len(self._tx_window)),
+    ] + seg_hints(ghost, j) + queued(self, old, ghost, j, False)
+
+
+contract(
+    ERTM_M + '.send_sdu',
+    prop='C08',
+    params=dict(self=ERTM, sdu=Bytes),
+    ghost=dict(GHOST, **SEG_GHOST),
+    requires=lambda self, sdu, ghost: wf(self, ghost) + [self.peer_mps >= 1, len(sdu) <= 0xFFFF] + seg_pre(self, sdu, ghost),
+    ensures=lambda self, sdu, old, ghost: seg_hints(ghost, 0) + queued(self, old, ghost, len(ghost.seg_off), True) + wf(self, ghost) + [
+        no_stall(self),
+        # frames already handed to the channel are never touched
+        ghost.w_tx[: len(old.ghost.w_tx)] == old.ghost.w_tx and ghost.w_pay[: len(old.ghost.w_pay)] == old.ghost.w_pay and ghost.w_sar[: len(old.ghost.w_sar)] == old.ghost.w_sar,
+        # no SDU is delivered by sending one
+        ghost.delivered == old.ghost.delivered,
+    ],
+    invariants={0: ss_inv},
+    loop_modifies={0: ['self._pending_pdus', 'self._next_tx_seq']},
+    modifies=PO_MOD + ['self._next_tx_seq'],
+    uses=USE_PO,
+    inline=['EnhancedRetransmissionProcessor._get_next_tx_seq', 'EnhancedRetransmissionProcessor._PendingPdu.*'],
 )
